@@ -41,6 +41,12 @@ def endings():
     E.append(("server-close-1000", dict(tail=[(3.0, "data", R.encode(R.CLOSE, b"\x03\xe8"))]), dict(close=(1000, ""), err=False)))
     E.append(("server-close-1001-reason", dict(tail=[(3.0, "data", R.encode(R.CLOSE, b"\x03\xe9going away"))]), dict(close=(1001, "going away"), err=False)))
     E.append(("server-close-4999", dict(tail=[(3.0, "data", R.encode(R.CLOSE, b"\x13\x87" + "\u00e9t\u00e9 fini".encode()))]), dict(close=(4999, "\u00e9t\u00e9 fini"), err=False)))
+    # every close status a server may send (RFC 6455 7.4.1 / the IANA registry: 1000-1003, 1007-1014; 3000-4999), bare and with reasons
+    for code in (1000, 1001, 1002, 1003, 1007, 1008, 1009, 1010, 1011, 1012, 1013, 1014, 3000, 3999, 4000, 4998):
+        for reason in ("", "r\u00e9ason %d" % code):
+            E.append(("server-close-code-%d%s" % (code, "-reason" if reason else ""), dict(tail=[(3.0, "data", R.encode(R.CLOSE, bytes([code >> 8, code & 255]) + reason.encode()))]),
+                      dict(close=(code, reason), err=False)))
+    E.append(("server-close-123-byte-reason", dict(tail=[(3.0, "data", R.encode(R.CLOSE, b"\x03\xe8" + b"r" * 123))]), dict(close=(1000, "r" * 123), err=False)))
     E.append(("server-close-then-eof", dict(tail=[(3.0, "data", R.encode(R.CLOSE, b"\x0f\xa0x")), (3.0, "eof", b"")]), dict(close=(4000, "x"), err=False)))
     E.append(("eof", dict(tail=[(3.0, "eof", b"")]), dict(close=(None, None), err=True)))
     E.append(("reset", dict(tail=[(3.0, "rst", b"")]), dict(close=(None, None), err=True)))
